@@ -6,5 +6,6 @@ CONSTANTS
   WithList = TRUE
   WithInserts = TRUE
   WithHist = TRUE
+  WithRollback = FALSE
 INVARIANTS Emit LocalEffect Convergence
 CHECK_DEADLOCK FALSE
